@@ -344,7 +344,7 @@ func child(variant string) {
 		os.Exit(3)
 	}
 	h.HandlePacket(&proto.PacketContext{Protocol: proto770, Direction: proto.ClientBound, Packet: &packet.AvailableCommands{RootNode: &brigodier.RootCommandNode{}}})
-	if ac := waitAvailable(client, 5*time.Second); ac != nil {
+	if ac := waitAvailable(client, 15*time.Second); ac != nil {
 		fmt.Printf("DONE children=%d\n", len(ac.RootNode.Children()))
 		os.Exit(0)
 	}
@@ -385,11 +385,11 @@ func main() {
 			os.Exit(2)
 		}
 		h.HandlePacket(&proto.PacketContext{Protocol: proto770, Direction: proto.ClientBound, Packet: &packet.AvailableCommands{RootNode: broot}})
-		ac := waitAvailable(client, 5*time.Second)
+		ac := waitAvailable(client, 15*time.Second)
 		var obs []string
 		var obsDesc []string
 		if ac == nil {
-			out.GoViolation(map[string]any{"known": nil, "index": -1, "what": "player never received the AvailableCommands packet within 5s", "graph": g.desc()})
+			out.GoViolation(map[string]any{"known": nil, "index": -1, "what": "player never received the AvailableCommands packet within 15s", "graph": g.desc()})
 		} else {
 			byPtr := map[brigodier.CommandNode]*bchild{}
 			for _, b := range bkids {
